@@ -268,7 +268,7 @@ pub fn generate(rng: &mut Rng, _prop: Prop) -> Scenario {
     // the peers' script: a walk through the grammar from the start state
     let mut script: Vec<(bool, usize)> = Vec::new(); // (to_server, token)
     let mut state = start;
-    for _ in 0..rng.urange(1, 14) {
+    for _ in 0..rng.urange(1, 14 * crate::prng::depth()) {
         let outs: Vec<&(usize, Dir, usize, usize)> = edges.iter().filter(|e| e.0 == state).collect();
         if outs.is_empty() {
             break;
